@@ -15,6 +15,11 @@ let () =
           | _ -> Printf.sprintf " | B %d P" (int_of_nat off))) r.cr_line_nums;
       List.iter (fun (off, o) ->
         Buffer.add_string b (match o with
+          | Done (Some l) -> Printf.sprintf " | Y %d %d" (int_of_nat off) (int_of_nat l)
+          | Done None -> Printf.sprintf " | Y %d -" (int_of_nat off)
+          | _ -> Printf.sprintf " | Y %d P" (int_of_nat off))) r.cr_line_bytes;
+      List.iter (fun (off, o) ->
+        Buffer.add_string b (match o with
           | Done (Some (l, c)) -> Printf.sprintf " | L %d %d %d" (int_of_nat off) (int_of_nat l) (int_of_nat c)
           | Done None -> Printf.sprintf " | L %d - -" (int_of_nat off)
           | _ -> Printf.sprintf " | L %d P P" (int_of_nat off))) r.cr_line_cols;
